@@ -132,6 +132,9 @@ func builtinStringLastIndexOf(call FunctionCall) Value {
 	if 0 > start.int64 {
 		start.int64 = 0
 	}
+	if start.int64 > int64(length) {
+		start.int64 = int64(length)
+	}
 	end := int(start.int64) + len(target)
 	if end > length {
 		end = length
@@ -440,7 +443,7 @@ func builtinStringSubstr(call FunctionCall) Value {
 		return stringValue("")
 	}
 
-	if start+length >= size {
+	if length >= size-start {
 		// Cap length to be to the end of the string
 		// start = 3, length = 5, size = 4 [0, 1, 2, 3]
 		// 4 - 3 = 1
